@@ -74,10 +74,10 @@ class C18(PropCheck):
     rule = ("random Stack trees (depth/width <= 3 quick, <= 4 thorough) over real frames (function, method, classmethod, "
             "self-named first arg), contexts with every combination of obj/varname/start_line/description/exiting/hidden, inner "
             "stacks, child contexts, child task stacks (stub or populated, with or without root), leaf, error (plain, "
-            "multi-line, with traceback, group), x all 8 option combinations; non-trivial = the tree has a context with an "
+            "multi-line, with traceback, group, messages with form feed / separators), x all 8 option combinations; error blocks alone for messages over an alphabet containing every str.splitlines() boundary, plain and chained; non-trivial = the tree has a context with an "
             "inner stack or children; distinct = (tree, options)")
     manifest = {
-        "text": "Lean (over the marker table regenerated from _types.py on every run): C18_lines (every formatted line ends in exactly one newline and contains no other, given newline-free payloads), C18_str (str = concatenation of format()), C18_markers_two_wide / C18_markers_decodable (all markers are two characters; the Unicode markers that can start a line at the same grammar position are pairwise distinct) / C18_indicator_is_start_child, C18_ascii (ASCII output = Unicode output with each marker replaced through a fixed map), C18_no_contexts (show_contexts=False prints exactly header, one or two lines per visible frame, leaf, error), C18_hidden_frames (a hidden frame contributes no line unless show_hidden_frames), C18_frame_blocks, C18_context_blocks (one level down: inside a visible frame's block, with the frame marker removed, the lines after the header split at start-of-context markers into exactly the visible contexts' blocks; the frame's source line is not absorbed) and C18_inner_stack_frames (inside a visible context with an inner stack, the lines after the context's own line split into exactly the inner stack's visible frames; its leaf and error lines and all lines of the context's children are not absorbed), (the frame series is recoverable: splitting the body at start-frame markers gives one block per visible frame, in order). The full-depth read-back of contexts / inner stacks / children is executed on the real output by the harness reader on every run (not proved). Tie: real format() lines vs model lines, string equality, 8 option combinations.",
+        "text": "Lean: C18_error_lines_single / C18_error_lines_count / C18_error_lines_lossless (SSModel/ErrLines.lean: how _format_error turns one element of traceback.format_exception into elements of format() -- whatever characters the message contains, each element is two spaces, a newline-free payload and one newline; as many elements as the text has newline-separated lines; the payloads joined by newlines are the element) and C18_F21_old_code_witness (str.splitlines(True), the code before F21, yields an element that does not end in a newline for a message with a carriage return). Lean (over the marker table regenerated from _types.py on every run): C18_lines (every formatted line ends in exactly one newline and contains no other, given newline-free payloads), C18_str (str = concatenation of format()), C18_markers_two_wide / C18_markers_decodable (all markers are two characters; the Unicode markers that can start a line at the same grammar position are pairwise distinct) / C18_indicator_is_start_child, C18_ascii (ASCII output = Unicode output with each marker replaced through a fixed map), C18_no_contexts (show_contexts=False prints exactly header, one or two lines per visible frame, leaf, error), C18_hidden_frames (a hidden frame contributes no line unless show_hidden_frames), C18_frame_blocks, C18_context_blocks (one level down: inside a visible frame's block, with the frame marker removed, the lines after the header split at start-of-context markers into exactly the visible contexts' blocks; the frame's source line is not absorbed) and C18_inner_stack_frames (inside a visible context with an inner stack, the lines after the context's own line split into exactly the inner stack's visible frames; its leaf and error lines and all lines of the context's children are not absorbed), (the frame series is recoverable: splitting the body at start-frame markers gives one block per visible frame, in order). The full-depth read-back of contexts / inner stacks / children is executed on the real output by the harness reader on every run (not proved). Tie: real format() lines vs model lines, string equality, 8 option combinations; real _format_error() elements vs the model's sublines, code point by code point, for messages over an alphabet with every str.splitlines() boundary.",
         "note": "Partial: the nesting below the frame level (contexts, inner stacks, children) is read back by an executable reader on the real text, not by a Lean theorem; the child-kind and empty-inner-stack erasures are part of the skeleton (DESIGN §4 C18). Payload strings (names, source lines, reprs, traceback text) are opaque and assumed single-line.",
     }
     assumptions = ["names, source lines and reprs contain no newline", "linecache / traceback.format_exception / repr are used as given"]
@@ -89,12 +89,65 @@ class C18(PropCheck):
         for i in range(n):
             seed = rng.randrange(1 << 30)
             out.append({"k": "tree", "seed": seed, "depth": rng.randint(2, dmax), "width": rng.randint(2, dmax)})
+        for i in range(150 if tier == "quick" else 1500):
+            out.append({"k": "err", "seed": rng.randrange(1 << 30), "chain": i % 5 == 0})
         return out
+
+    ERR_ALPHABET = ["a", "b", " ", ":", "\n", "\n", "\r", "\r\n", "\x0b", "\x0c", "\x1c", "\x1d", "\x1e", "\x85", "\u2028", "\u2029", "é", "\t"]
+
+    def run_err(self, case):
+        """The error block alone: an exception (with a real traceback, possibly chained) whose message is drawn from an alphabet
+        that contains every str.splitlines() boundary.  Real `_format_error()` elements vs the model's `ErrLines.sublines` of each
+        element of traceback.format_exception(); oracle: every element is one newline-terminated line, the count is the number of
+        lines of the text, nothing is lost."""
+        import traceback
+
+        import stackscope
+
+        rng = random.Random(case["seed"])
+        msg = "".join(rng.choice(self.ERR_ALPHABET) for _ in range(rng.randint(0, 12)))
+
+        def lvl(n):
+            if n == 0:
+                raise RuntimeError(msg)
+            lvl(n - 1)
+
+        try:
+            try:
+                lvl(rng.randint(0, 2))
+            except RuntimeError as e1:
+                if case.get("chain"):
+                    raise ValueError(msg[::-1]) from e1
+                raise
+        except Exception as e:
+            err = e
+        st = stackscope.Stack(root=None, frames=[], error=err)
+        self._probs = []
+        real = list(st._format_error())
+        full = st.format()
+        elems = [l for l in traceback.format_exception(type(err), err, err.__traceback__) if l != "Traceback (most recent call last):\n"]
+        case["_err_elems"] = [[ord(ch) for ch in l] for l in elems]
+        for l in full:
+            if not l.endswith("\n") or l.count("\n") != 1:
+                self._probs.append(f"format() element is not a single newline-terminated line: {l!r} (message {msg!r})")
+                break
+        text = "".join(full)
+        if text != str(st):
+            self._probs.append("str(x) is not the concatenation of format()")
+        if len(full) != text.count("\n"):
+            self._probs.append(f"{len(full)} elements for {text.count(chr(10))} lines of text (message {msg!r})")
+        want_payload = "".join(elems)
+        got_payload = "".join(l[2:] for l in real[1:])
+        if got_payload.replace("\n", "") != want_payload.replace("\n", ""):
+            self._probs.append(f"the error block loses or reorders traceback text (message {msg!r})")
+        return " ".join("-".join(str(ord(ch)) for ch in l) for l in real[1:])
 
     def build(self, case):
         return trees.rnd_stack(random.Random(case["seed"]), case["depth"], case["width"])
 
     def run_real(self, case):
+        if case["k"] == "err":
+            return self.run_err(case)
         s = self.build(case)
         self._probs: List[str] = []
         parts = []
@@ -106,6 +159,10 @@ class C18(PropCheck):
             for l in lines:
                 if not l.endswith("\n") or l.count("\n") != 1:
                     self._probs.append(f"line not a single newline-terminated line: {l!r}")
+        want_header = ("stackscope.Stack (most recent call last):\n" if s.root is None
+                       else f"stackscope.Stack of {s.root!r} (most recent call last):\n")
+        if outs[(False, True, False)][:1] != [want_header]:
+            self._probs.append(f"header line {outs[(False, True, False)][:1]!r} for root {s.root!r}; expected {want_header!r}")
         if str(s) != "".join(s.format()):
             self._probs.append("str(x) is not the concatenation of format()")
         for ctx, hid in itertools.product([False, True], repeat=2):
@@ -159,6 +216,8 @@ class C18(PropCheck):
         return None
 
     def model_lines(self, case) -> List[str]:
+        if case["k"] == "err":
+            return [json.dumps({"p": "C18", "k": "errlines", "lines": case["_err_elems"]})]
         out = []
         for ascii_, ctx, hid in itertools.product([False, True], repeat=3):
             out.append(json.dumps({"p": "C18", "k": "format", "stack": case["_stack"], "ascii": ascii_, "contexts": ctx, "hidden": hid},
@@ -172,15 +231,20 @@ class C18(PropCheck):
         return self._oracles.get(id(case))
 
     def nontrivial_key(self, case, real):
+        if case["k"] == "err":
+            return json.dumps({k: v for k, v in case.items() if not k.startswith("_")}, sort_keys=True) if isinstance(real, str) and " " in real else None
         s = json.dumps(case.get("_stack", {}))
         if '"inner": {' in s or '"children": [{' in s:
             return json.dumps({k: v for k, v in case.items() if not k.startswith("_")}, sort_keys=True)
         return None
 
     def stats(self, cases, reals):
-        d = {"trees": len(cases), "lines_total": 0, "with_inner": 0, "with_child_stack": 0, "with_error": 0, "with_hidden": 0,
+        d = {"trees": sum(c["k"] == "tree" for c in cases), "lines_total": 0, "with_inner": 0, "with_child_stack": 0, "with_error": 0, "with_hidden": 0,
              "with_exiting": 0}
+        d["error_blocks"] = sum(c["k"] == "err" for c in cases)
         for c, r in zip(cases, reals):
+            if c["k"] == "err":
+                continue
             s = json.dumps(c.get("_stack", {}))
             d["with_inner"] += '"inner": {' in s
             d["with_child_stack"] += '"children": [{"root"' in s or ', {"root"' in s
